@@ -135,8 +135,18 @@ var ruleErrFirst = &Rule{
 										continue
 									}
 									pred := x.Block().Preds[k]
-									if isNil, _ := nilFact(edgeFacts(pred, succIndex(pred, x.Block())), ev); !isNil {
-										okAll = false
+									efs := edgeFacts(pred, succIndex(pred, x.Block()))
+									if isNil, _ := nilFact(efs, ev); !isNil {
+										// … or the status that travels with the error is known good
+										good := false
+										if j, kind := p.statusAmongResults(c.Call.StaticCallee()); kind != "" {
+											if sv := extractOf(c, j); sv != nil && p.statusFact(efs, sv, p.badConstFor(kind)) == -1 {
+												good = true
+											}
+										}
+										if !good {
+											okAll = false
+										}
 									}
 								}
 								if okAll {
@@ -172,6 +182,13 @@ var ruleErrFirst = &Rule{
 							if okBranch {
 								continue
 							}
+							// `seq, res, err := f()` where f sets the error only with the
+							// failed status: behind `res != failed` the error is nil
+							if j, kind := p.statusAmongResults(c.Call.StaticCallee()); kind != "" {
+								if sv := extractOf(c, j); sv != nil && p.statusFact(factsAt(r.Block()), sv, p.badConstFor(kind)) == -1 {
+									continue
+								}
+							}
 							// a comparison that only decides a branch reads nothing out
 							// of the value; what the branches do with it is judged there
 							if bo, ok := r.(*ssa.BinOp); ok {
@@ -204,7 +221,7 @@ var ruleErrFirst = &Rule{
 			}
 		}
 		out.Counts["value_error_calls_examined"] = ncalls
-		out.Floors["value_error_calls_examined"] = 20
+		out.Floors["value_error_calls_examined"] = 7
 		if len(out.Obs) == 0 {
 			out.ok("results are read after their error", "path/exec", "", fmt.Sprintf("%d calls returning (value, error) with the error examined: every use of the value is behind err == nil", ncalls))
 		}
